@@ -257,7 +257,7 @@ def run_cases(binp, casesp, shapesp, outp, seed, wd, tag):
     samples, summary counters)."""
     skip = 0
     bad, samples = [], []
-    tot = {"behaviours": 0, "steps": 0, "encodes": 0, "decodes": 0, "bytes": 0, "aborts": 0, "cases": 0}
+    tot = {"behaviours": 0, "steps": 0, "encodes": 0, "decodes": 0, "bytes": 0, "aborts": 0, "cases": 0, "wrapped_deques": 0}
     restarts = 0
     while True:
         part = f"{outp}.{restarts}"
@@ -274,6 +274,7 @@ def run_cases(binp, casesp, shapesp, outp, seed, wd, tag):
                     last_start = r["start"]
                 elif r.get("summary"):
                     summary = r
+                    tot["wrapped_deques"] += r.get("wrapped_deques", 0)
                 elif "i" in r:
                     if last_start == r["i"]:
                         last_start = None
@@ -606,6 +607,10 @@ def run(tier, seed):
             if r.get("nfail", 0) or not r.get("final_pos_ok", True) or (r.get("failures") and "nfail" not in r):
                 verdict.violation(f"static sweep of {r['type']}: {r['failures'][:1]}",
                                   {"property": PID, "features": feat, "seed": seed, "origin": "sweep", "sweep": r})
+    # anti-vacuity of the layout dimension: wrapped ring buffers were really handed to the encoder
+    n_wrapped = sum(t.get("wrapped_deques", 0) for t in totals.values())
+    if n_wrapped == 0:
+        raise vp.ToolError("no VecDeque with a wrapped ring buffer was encoded: the layout dimension is not exercised")
     rc = verdict.finish()
     # the case files are large (hundreds of MB in the thorough tier) and reproducible
     for fn in os.listdir(wd):
@@ -673,6 +678,10 @@ def run(tier, seed):
                         "(drift) inline/reference pattern == model", "(drift) equal (type, content) handles of one decoded value share one allocation"],
         },
         "replay_totals": totals,
+        "layouts": {"per_encode": "Layout(k) of Codec.tla + seed, mod 3: 0 collected in order, 1 grown from both ends / reverse insertion "
+                                  "into an over-sized table, 2 ring-buffer head moved by queue traffic / shrunk table",
+                    "containers": ["Vec", "VecDeque", "LinkedList", "BTreeSet", "HashSet", "HashSet<_, Fx>", "HashMap", "HashMap<_, _, Fx>"],
+                    "vecdeques_with_wrapped_ring_buffer_encoded": n_wrapped},
         "sweeps": [{"features": f, "types": len(sw), "values": sum(r["n"] for r in sw),
                     "exhaustive_domains": ["u8", "i8", "u16", "i16", "bool", "char"]} for f, sw in zip(("extras", "default"), sweeps)],
         "model_drift": counters["model_drift"],
